@@ -29,14 +29,146 @@ META = {
     'components_real': ['MemoryRecording.get_data / pickle_copy', 'TapeRecorder record + play + recorded-output extraction', 'all three cassettes'],
     'components_stub': ['S3 bucket', 'service and environment'],
     'budgets': {'quick': {'seconds': 25}, 'thorough': {'seconds': 360}},
-    'required_probes': {'thorough': ['mutated_get_data', 'mutated_item_access', 'mutated_metadata', 'mutated_recorded_output', 'service_mutated_value',
+    'required_probes': {'thorough': ['concurrent_reads', 'value_class_with_copy_hooks', 'mutated_get_data', 'mutated_item_access', 'mutated_metadata', 'mutated_recorded_output', 'service_mutated_value',
                                      'copy_on_interception', 'mutated_playback_output', 'exception_with_mutable_payload']},
 }
 
 
 def run_tape(tape):
     with seams.deterministic(tape) as clock:
+        mode = tape.draw(8)
+        if mode == 7:
+            return concurrent_reads(tape, clock)
+        if mode == 6:
+            return values_with_copy_hooks(tape, clock)
         return _run(tape, clock)
+
+
+def values_with_copy_hooks(tape, clock):
+    """Recorded values of a class whose copy hooks hand back the very object (`__copy__` / `__deepcopy__` return self):
+    what a recording hands out must still be a fresh copy - on every cassette, for direct reads and for replayed inputs."""
+    run = Run(PROP)
+    run.probe('value_class_with_copy_hooks')
+    run.nontrivial = True
+    store = C.gen_store(tape, clock)
+    try:
+        cas = store.open()
+        rec = cas.create_new_recording('OpA')
+        depth = tape.draw(3)
+        inner = R.D.Shy(items=[1, 2, tape.draw(5)], tag='t%d' % tape.draw(4))
+        value = inner if depth == 0 else ([inner, 7] if depth == 1 else {'k': [R.D.Pt(member=inner)]})
+        if not V.faithful(value):
+            run.probe('recording_outside_faithful_domain')
+            return run
+        rec.set_data('k', value)
+        cas.save_recording(rec)
+        original = V.canon(value)
+        r = (store.open(read_only=True) if tape.draw(2) else cas).get_recording(rec.id)
+
+        def shy_of(v):
+            return v if depth == 0 else (v[0] if depth == 1 else v['k'][0].member)
+        for rnd in range(2 + tape.draw(2)):
+            v = r.get_data('k') if tape.draw(2) else r['k']
+            if V.canon(v) != original:
+                run.violate('reads_are_fresh_copies', 'get-data-aliased', 'read #%d of a value whose class has copy hooks returned %s, stored was %s' % (rnd, V.short(v, 200), V.short(value, 200)))
+                break
+            shy_of(v).items.append('MUTATED')
+            shy_of(v).extra = rnd
+        run.check(V.canon(value) == original, 'reads_are_fresh_copies', 'caller-object-aliased', 'mutating a value read from the recording changed the object the service had recorded')
+        run.ev('hooks', store.describe(), depth, [v.signature for v in run.violations])
+    finally:
+        store.close()
+    return run
+
+
+def concurrent_reads(tape, clock):
+    """Two threads (two replays served by one process, or a replay with worker threads) read from the same fetched
+    recording at the same time, with pre-emption inside the copy; every read is still a fresh, complete, independent copy."""
+    import os
+    import jsonpickle
+    from simkit import REPO
+    from simkit.sim import Sim, SimDeadlock
+    run = Run(PROP)
+    run.probe('concurrent_reads')
+    V.FLAVOUR['objects'], V.FLAVOUR['sharing'] = False, True
+    store = C.gen_store(tape, clock)
+    try:
+        cas = store.open()
+        rec = cas.create_new_recording('OpA')
+        values = {}
+        for n in range(1 + tape.draw(3)):
+            shared = None
+            for _ in range(6):
+                shared = V.gen_faithful(tape, run, 2)
+                if V.is_mutable(shared):
+                    break
+            if not V.is_mutable(shared):
+                shared = [n, {'k': [n]}]
+            v = [shared, {'again': shared}, V.gen_faithful(tape, run, 1)] if tape.draw(2) else {'a': shared, 'b': [shared, n]}
+            if not V.faithful(v):
+                v = [[n], [n]]
+            values['key%d' % n] = v
+            rec.set_data('key%d' % n, v)
+        if not V.doc_faithful(values):
+            run.probe('recording_outside_faithful_domain')
+            return run
+        cas.save_recording(rec)
+        r = store.open(read_only=True).get_recording(rec.id)
+        originals = dict((k, V.canon(v)) for k, v in values.items())
+        keys = sorted(values)
+        plans = [[keys[tape.draw(len(keys))] for _ in range(1 + tape.draw(3))] for _ in range(2 + tape.draw(2))]
+        sim = Sim(tape, run, preempt_p=tape.choice([0.01, 0.05, 0.2]),
+                  target_prefixes=[os.path.join(REPO, 'playback', 'utils'), os.path.join(REPO, 'playback', 'recordings'), os.path.join(REPO, 'playback', 'recording.py'),
+                                   os.path.dirname(jsonpickle.__file__)], max_steps=400000)
+        got = {}
+
+        def reader(n, plan):
+            def body():
+                out = []
+                for k in plan:
+                    try:
+                        out.append((k, r.get_data(k), None))
+                    except Exception as ex:
+                        out.append((k, None, ex))
+                got[n] = out
+            return body
+
+        def main():
+            tasks = [sim.spawn(reader(n, p), name='reader%d' % n) for n, p in enumerate(plans)]
+            for t in tasks:
+                sim.join(t)
+        try:
+            sim.run_main(main)
+        except SimDeadlock as ex:
+            run.violate('reads_are_fresh_copies', 'deadlock', str(ex))
+            return run
+        run.nontrivial = sim.switches > len(plans) + 1
+        handed = []
+        for n in sorted(got):
+            for k, v, err in got[n]:
+                if err is not None:
+                    run.violate('reads_are_fresh_copies', 'concurrent-read-raised:%s' % type(err).__name__, 'get_data(%s) raised %r while another thread was reading from the same recording' % (k, err))
+                elif V.canon(v) != originals[k]:
+                    run.violate('reads_are_fresh_copies', 'concurrent-read-wrong-value', 'get_data(%s) during concurrent reads returned %s, stored is %s' % (k, V.short(v, 200), V.short(values[k], 200)))
+                else:
+                    handed.append((k, v))
+        # independence: mutate every handed-out value in turn; no other handed-out value and no later read may change
+        if not run.violations:
+            for idx, (k, v) in enumerate(handed):
+                if not V.mutate_in_place(tape, v):
+                    continue
+                for jdx, (k2, v2) in enumerate(handed):
+                    if jdx > idx and V.canon(v2) != originals[k2]:
+                        run.violate('reads_are_fresh_copies', 'concurrent-reads-share-objects', 'two values handed out by concurrent reads share objects: mutating one (%s) changed the other (%s)' % (k, k2))
+                        break
+                if run.violations:
+                    break
+            for k in keys:
+                run.check(V.canon(r.get_data(k)) == originals[k], 'reads_are_fresh_copies', 'get-data-aliased', lambda: 'a later read of %s changed after mutating values handed out earlier' % k)
+        run.ev('concurrent_reads', store.describe(), plans, sim.switches, [v.signature for v in run.violations])
+    finally:
+        store.close()
+    return run
 
 
 def mutable_outcome(tape, run):
